@@ -207,9 +207,12 @@ InstUnits(S, p, i) ==      \* the instances of declaration i in the order of the
 \* (pkgCtx.anonTypes: ptrType$3, sliceType$1, ... numbered in discovery order): the names inside an
 \* instance depend on how many instances were translated before it.  The last token component is
 \* that ordinal (an over-approximation: an instance that needs no new anonymous type shifts nothing).
+\* The names are package-wide, so the non-generic code of the package is shifted as well by every
+\* instance translated before it -- also by one that dead-code elimination drops later: the pkg token
+\* carries the number of instances the package translated.
 Numbered(us) == TLCEval([q \in 1..Len(us) |-> [tok |-> [us[q].tok EXCEPT ![7] = q], refs |-> us[q].refs]])
 PkgToks(p, S, ford, es, sortImp) ==
-  <<[tok |-> <<"pkg", p, 0, 0, 0, ImportList(p, ford, sortImp), 0>>, refs |-> <<>>]>>
+  <<[tok |-> <<"pkg", p, IF p \in DOMAIN S THEN Len(S[p]) ELSE 0, 0, 0, ImportList(p, ford, sortImp), 0>>, refs |-> <<>>]>>
   \o Numbered(Flat([i \in 1..Len(decls) |-> IF decls[i].pkg = p THEN InstUnits(S, p, i) ELSE <<>>]))
   \o (LET ix == TLCEval(RootIdxSeq(p, ford)) IN
       TLCEval([q \in 1..Len(ix) |-> [tok |-> <<"root", p, ix[q], 0, 0, <<>>, 0>>, refs |-> RefToks(S, RootAdds(decls, roots[ix[q]]))]]))
